@@ -1013,7 +1013,9 @@ def pad(tensor, padding, value=0.0):
             "The number of paddings should not exceed the number of dimensions of the tensor.")
 
     if tensor.is_ttm:
-        cores = [c.clone() for c in tensor.cores]
+        # a complex fill value on a real operator gives a complex result (as for tensors)
+        dtype = tn.result_type(tensor.cores[0], value)
+        cores = [c.clone().to(dtype) for c in tensor.cores]
         padding = ((0, 0),)*(len(tensor.N)-len(padding)) + tuple(padding)
         for pad, k in zip(reversed(padding), reversed(range(len(tensor.N)))):
             cores[k] = tnf.pad(cores[k], (1 if k < len(tensor.N)-1 else 0, 1 if k < len(tensor.N) -
